@@ -199,7 +199,7 @@ def standin_histories(tier, seed):
     uniq = {v["key"]: v for v in violations}
     return dict(evaluations=evals, distinct_nontrivial=len(distinct),
                 rule="one evaluation = one public call with snapshots of the model and of the inputs around it, compared with the same call on a fresh model; distinct = (model, origin, history)",
-                samples=samples, violations=list(uniq.values())[:10],
+                samples=samples, violations=list(uniq.values())[:60],
                 bound=dict(operations=OPS, history_length=2, origins=["fitted", "loaded"], exhaustive=True))
 
 
